@@ -4,3 +4,4 @@ import QV.Generated.Consts
 import QV.Generated.Tables
 import QV.Properties.C14
 import QV.Properties.C22
+import QV.Properties.C31
